@@ -1,6 +1,34 @@
 import SR.Drv.Loop
-/-! Driver commands for C04 (stub). -/
+import SR.Hash.Codec
+/-! Driver commands for C04.
+* `toks TY VAL GRAPH` — the model's token stream of a value (GRAPH = the inner stable hasher on the set/map
+  elements occurring in the value, measured on the implementation).
+* `o-pair TY A B STREAMS_EQUAL IMPL_EQ WANT` — oracle: the implementation's two recorded streams are equal
+  exactly when the values are semantically equal (`equivB`, the decision procedure of `≈τ`), and so is `==`;
+  WANT = `eq` for two builds of one logical value (they must be equivalent), `any` otherwise.
+-/
 namespace SR.Drv.C04
+open SR SR.Hash
+
 def handle : Drv.Handler
+  | "toks", [ty, v, g] => do
+    let τ ← decodeTy ty
+    let v ← decodeVal τ v
+    let g ← decodeGraph g
+    pure (toksStr (toks (hOfGraph g) τ v))
+  | "o-pair", [ty, a, b, se, ie, want] => do
+    let τ ← decodeTy ty
+    let a ← decodeVal τ a
+    let b ← decodeVal τ b
+    let se ← se.bool?
+    let ie ← ie.bool?
+    let eqv := equivB τ a b
+    let want ← want.str?
+    pure (if want == "eq" && !eqv then "builds-of-one-logical-value-not-equivalent"
+      else if se && !eqv then "collision:distinct-values-equal-streams"
+      else if !se && eqv then "split:equal-values-different-streams"
+      else if ie != eqv then (if ie then "eq-true-on-distinct-values" else "eq-false-on-equal-values")
+      else "ok")
   | _, _ => none
+
 end SR.Drv.C04
